@@ -207,6 +207,11 @@ impl<K, V> DashMap<K, V> {
             i += 1;
         }
     }
+    /// Model-only: overwrite slot `i` (no scheduling point, no search). Lets a harness build an arbitrary map state from
+    /// symbolic components without the branching that conditional `insert` calls cost. The caller keeps keys distinct.
+    pub fn verif_set_slot(&self, i: usize, e: Option<(K, V)>) {
+        self.slots()[i] = e;
+    }
     /// Model-only: number of live entries without a scheduling point.
     pub fn verif_len(&self) -> usize {
         let mut n = 0;
@@ -318,6 +323,64 @@ impl<K: Eq, V> DashMap<K, V> {
     }
 }
 
+/// `DashMap::entry`: the shard stays locked from `entry()` until the `Entry` is consumed, so the whole
+/// get-or-insert is ONE atomic step: one scheduling point at `entry()`, none inside.
+pub struct Entry<'a, K, V> {
+    map: &'a DashMap<K, V>,
+    key: K,
+    at: Option<usize>,
+}
+pub mod mapref_entry {
+    pub use crate::Entry;
+}
+impl<'a, K: Eq, V> Entry<'a, K, V> {
+    pub fn or_insert_with(self, value: impl FnOnce() -> V) -> RefMut<'a, K, V> {
+        let slots = unsafe { &mut *self.map.slots.get() };
+        let i = match self.at {
+            Some(i) => i,
+            None => {
+                let mut free = CAP;
+                let mut i = 0;
+                while i < CAP {
+                    if slots[i].is_none() && free == CAP {
+                        free = i;
+                    }
+                    i += 1;
+                }
+                if free == CAP {
+                    verif_rt::bound_exceeded("dashmap CAP")
+                }
+                slots[free] = Some((self.key, value()));
+                free
+            }
+        };
+        let g = self.map.guard(i);
+        match slots[i].as_mut() {
+            Some((k, v)) => RefMut { k: &*k, v, g },
+            None => verif_rt::bound_exceeded("dashmap entry slot"),
+        }
+    }
+    pub fn or_insert(self, value: V) -> RefMut<'a, K, V> {
+        self.or_insert_with(|| value)
+    }
+    pub fn or_default(self) -> RefMut<'a, K, V>
+    where
+        V: Default,
+    {
+        self.or_insert_with(V::default)
+    }
+}
+impl<K: Eq, V> DashMap<K, V> {
+    pub fn entry(&self, key: K) -> Entry<'_, K, V> {
+        verif_rt::yield_point(SITE);
+        let at = self.find(&key);
+        if let Some(i) = at {
+            self.check_unlocked(i);
+        }
+        Entry { map: self, key, at }
+    }
+}
+
 pub struct DashSet<K> {
     inner: DashMap<K, ()>,
 }
@@ -347,6 +410,10 @@ impl<K> DashSet<K> {
     }
     pub fn verif_len(&self) -> usize {
         self.inner.verif_len()
+    }
+    /// Model-only: see `DashMap::verif_set_slot`.
+    pub fn verif_set_slot(&self, i: usize, k: Option<K>) {
+        self.inner.verif_set_slot(i, k.map(|k| (k, ())));
     }
     pub fn clear(&self) {
         self.inner.clear()
